@@ -78,3 +78,12 @@ package hash
 //@
 //@ func (EventsSet).Contains
 //@   ensures  result == has(hh, hash)
+//@
+//@ // Pop returns a pointer into the backing array (&(*s)[l-1]); pointers to slice elements are outside the verified
+//@ // subset, so its contract is ASSUMED: the result points to a cell holding the old top element. A caller must read it
+//@ // before the next Push (which may overwrite the slot) -- dfsSubgraph does.
+//@ trusted func (*EventsStack).Pop
+//@   requires s != nil
+//@   modifies deref(s)
+//@   ensures  old(len(deref(s))) == 0 ==> result == nil && deref(s) == old(deref(s))
+//@   ensures  old(len(deref(s))) > 0 ==> result != nil && deref(result) == old(deref(s)[len(deref(s)) - 1]) && len(deref(s)) == old(len(deref(s))) - 1 && arrof(deref(s)) == old(arrof(deref(s))) && offof(deref(s)) == old(offof(deref(s)))
